@@ -202,6 +202,13 @@ def auth_variants(user, pw):
         ('empty_user', {'k': 'basic', 'user': '', 'password': pw}),
         ('nonascii_password', {'k': 'basic', 'user': user, 'password': 'pä'}),
         ('nonascii_user', {'k': 'basic', 'user': 'admïn', 'password': pw}),
+        # the configured secret with characters added that an ASCII-only / normalising comparison would drop
+        ('password_plus_nonascii', {'k': 'basic', 'user': user, 'password': pw + 'é'}),
+        ('nonascii_plus_password', {'k': 'basic', 'user': user, 'password': 'ü' + pw}),
+        ('password_with_zero_width', {'k': 'basic', 'user': user, 'password': pw[:2] + '\u200b' + pw[2:]}),
+        ('user_plus_nonascii', {'k': 'basic', 'user': user + 'é', 'password': pw}),
+        ('password_plus_space', {'k': 'basic', 'user': user, 'password': pw + ' '}),
+        ('password_plus_nul', {'k': 'basic', 'user': user, 'password': pw + '\x00'}),
     ]
     more = [
         ('upper_user', {'k': 'basic', 'user': user.upper(), 'password': pw}),
@@ -416,6 +423,12 @@ class Pair(object):
                 self.res.disagree('model driver error', self.case(), None, mo)
                 break
             if req is None:
+                if any(o == ['unmodelled'] for o in mo.get('outs', [])):
+                    # an UPDATE outside the decoders of the Lean UPDATE model (as in suites/session.py): the comparison of
+                    # this history ends here
+                    self.res.stats.skipped += 1
+                    self.res.stats.hit('model_says_unmodelled')
+                    break
                 if out != mo:
                     self.res.disagree('session event before a request', self.case(), out, mo)
                     break
